@@ -118,7 +118,7 @@ def tiling(fv, loop, ob, rel, what):
     rd = fv.reaching_defs(off, loop.test)
     inits = [d for d in rd if d[0] is not None and enclosing(d[0], (ast.While,)) is not loop]
     if len(inits) != 1 or not (isinstance(inits[0][1], ast.Constant) and inits[0][1].value == 0):
-        ob.violate(rel, qual, '{} initialised by {}'.format(off, src(inits[0][0]) if inits else '?'), '{}: the first piece does not start at offset 0'.format(what), loop)
+        ob.violate(rel, qual, '{} initialised by {}'.format(off, src(inits[0][0]) if inits else '?'), '{}: the first piece does not start at offset 0'.format(what), loop, sure=True)
     # advance
     advs = [n for n in walk_local(loop) if isinstance(n, ast.AugAssign) and isinstance(n.target, ast.Name) and n.target.id == off]
     plain = [n for n in walk_local(loop) if isinstance(n, ast.Assign) and any(isinstance(t, ast.Name) and t.id == off for t in n.targets)]
@@ -140,10 +140,10 @@ def tiling(fv, loop, ob, rel, what):
     want = ['{} + {}'.format(off, src(step)), '{} + {}'.format(src(step), off)]
     if upper is None or src(upper) not in want:
         ob.violate(rel, qual, src(sl), '{}: a piece is cut as [{}:{}] but the offset advances by {} (pieces overlap or leave gaps)'.format(
-            what, off, src(upper) if upper is not None else '', src(step)), sl)
+            what, off, src(upper) if upper is not None else '', src(step)), sl, sure=True)
     # the slice must see the offset before the advance
     if fv.node(sl) in fv.cfg.reachable([fv.node(adv)], avoid=[fv.node(loop.test)]):
-        ob.violate(rel, qual, src(sl), '{}: the piece is cut after the offset was already advanced'.format(what), sl)
+        ob.violate(rel, qual, src(sl), '{}: the piece is cut after the offset was already advanced'.format(what), sl, sure=True)
     # the loop bound is the length of the sliced data
     tot = fv.value_at(total, loop.test)
     if src(tot) != 'len({})'.format(src(sl.value)) and src(total) != 'len({})'.format(src(sl.value)):
@@ -154,7 +154,7 @@ def tiling(fv, loop, ob, rel, what):
     body0 = fv.node(loop.body[0])
     ok, wit = fv.cfg.must_pass(body0, fv.node(loop.test), {fv.node(adv)}, include_exc=False) if body0 is not fv.node(adv) else (True, None)
     if not ok:
-        ob.violate(rel, qual, src(adv), '{}: an iteration can complete without advancing the offset'.format(what), adv)
+        ob.violate(rel, qual, src(adv), '{}: an iteration can complete without advancing the offset'.format(what), adv, sure=True)
     return til
 
 
@@ -318,7 +318,7 @@ def per_instance_state(tree, ob, rel, clsnames):
                 n += 1
                 if t.id in mutated and t.id not in init_sets:
                     ob.violate(rel, cname, '{} = {}  (class body)'.format(t.id, src(v)[:30]), 'the container {} is created once for the class and mutated through self: every {} object shares it, so what one '
-                               'session queues, maps or acknowledges shows up in (or is refused because of) another'.format(t.id, cname), item)
+                               'session queues, maps or acknowledges shows up in (or is refused because of) another'.format(t.id, cname), item, sure=True)
                 else:
                     ob.site(rel, item, '{}.{}: class-level container not mutated through self'.format(cname, t.id))
         for a in sorted(mutated):
@@ -397,7 +397,7 @@ def fresh_defaults(tree, ob, rels):
                 n += 1
                 if isinstance(d, (ast.Call, ast.List, ast.Dict, ast.Set, ast.ListComp, ast.DictComp, ast.SetComp)) and (call_name(d) or '') not in ('frozenset', 'tuple', 'field', 'dataclasses.field'):
                     ob.violate(rel, qual, '{}(... = {})'.format(func.name, src(d)[:40]), 'the default argument is one object made when the function was defined and shared by every call: objects that '
-                               'should start empty (the bundle of a new container) accumulate what earlier uses put into them', d)
+                               'should start empty (the bundle of a new container) accumulate what earlier uses put into them', d, sure=True)
     ob.site(rels[0], tree.module(rels[0]).tree, 'no default argument builds a shared mutable object ({} defaults in {} module(s))'.format(n, len(rels)))
 
 
@@ -444,7 +444,7 @@ def iter_mutation(tree, ob, rels, report=True):
     for (rel, qual, loop, hit, base) in found:
         if report:
             ob.violate(rel, qual, 'for {} in {}: ... {}'.format(src(loop.target), src(loop.iter), src(hit)[:40]), 'the container {} is changed in size while it is being iterated: a list skips the element '
-                       'behind every removed one, a dict raises RuntimeError out of the loop'.format(base), hit)
+                       'behind every removed one, a dict raises RuntimeError out of the loop'.format(base), hit, sure=True)
     if not found:
         ob.site(rels[0], tree.module(rels[0]).tree, 'no loop changes the size of the container it iterates ({} loops over named containers in {} module(s))'.format(n, len(rels)))
     return found
@@ -473,7 +473,7 @@ def tx_steps_discipline(tree, ob):
             if falsy or taker:
                 continue
             ob.violate(st['rel'], qual, src(r), 'a TX step other than fragmentation returns a value that can be truthy: send_bundle() takes it for "transmission taken over" and returns without sending, '
-                       'while the forwarder records the bundle as forwarded', r)
+                       'while the forwarder records the bundle as forwarded', r, sure=True)
         # (1)
         if taker:
             ob.site(st['rel'], fv.func, qual + ': the fragmentation step (may take the transmission over)')
@@ -483,7 +483,7 @@ def tx_steps_discipline(tree, ob):
         bad = [e for e in edits if not any(t.endswith('PrimaryBlock.Flag.IS_FRAGMENT') and p_ is False for (t, p_) in (fv.facts(e) or ()))]
         if bad:
             ob.violate(st['rel'], qual, src(bad[0])[:70], 'a TX step edits the blocks of whatever passes the chain, fragments included: every fragment of a forwarded bundle is edited again after it was cut '
-                       '(blocks added twice, counts advanced twice) and comes out larger than the MTU it was cut for', bad[0])
+                       '(blocks added twice, counts advanced twice) and comes out larger than the MTU it was cut for', bad[0], sure=True)
         else:
             ob.site(st['rel'], fv.func, qual + ': edits no blocks of a fragment, gives no truthy result')
 
